@@ -240,6 +240,9 @@ def body(chk):
     chk.sample({"corrupted": results[n_ok]["case"]["n_bad"], "kinds": results[n_ok]["case"]["kinds"][:3], "first_lines": results[n_ok]["text"]})
     chk.assumptions += ["line numbers in error messages are 0-based ('line 00'), as the pinned suite fixes them", "keys are unique within a section",
                         "file roles follow the number in the ...ProductFileNameNN keys"]
+    from harness import sessioncheck
+
+    sessioncheck.standard(chk)
     chk.finish(rule="well-formed texts: 30+ entries incl. values with blanks, '=', quotes, non-ASCII, empty values; 3..10 product files; 1..8 shape indices; "
                     "three ordering modes; LF/CRLF; malformed texts: 1..12 lines corrupted with the 11 corruption kinds of the grammar; evaluations = lines; "
                     "distinct = texts", exhaustive=False, extra={"wellformed_texts": n_ok, "corrupted_texts": n_bad})
